@@ -4,7 +4,8 @@ and its own scratch worktree; nothing from /verif). usage: gen_seed_prompts.py <
 import json, sys
 root = sys.argv[1]
 ids = set(sys.argv[2:])
-T = open('/verif/tools/seed_prompt.tmpl').read()
+import os
+T = open(os.environ.get('SEED_TMPL', '/verif/tools/seed_prompt.tmpl')).read()
 for l in open('/verif/properties.jsonl'):
     d = json.loads(l)
     if ids and d['id'] not in ids:
